@@ -197,9 +197,15 @@ fn judge_pk(b: &[u8], st: &mut Stats) -> Result<(), String> {
         v.serialize_to_bincode().map(hex::encode)
       ));
     }
-    (Err(_), Ok(_)) => {
-      // a complete encoding was refused: only acceptable for reasons the reader does not model (none known)
-      return Err(format!("a complete, well-formed public key encoding was refused: {}", hex::encode(b)));
+    (Err(_), Ok((m, used))) => {
+      // a complete encoding was refused.  A stricter decoder may do that for keys an honest
+      // server never produces (unsorted / repeated tags, points that do not decode, trailing
+      // bytes); refusing a canonical key whose points all decode is a defect.
+      let honest_shape = m.canonical() == m && used == b.len() && decompress(&m.base).is_some() && m.entries.iter().all(|(_, p)| decompress(p).is_some());
+      if honest_shape {
+        return Err(format!("a complete, canonical public key encoding with valid points was refused: {}", hex::encode(b)));
+      }
+      st.class("pk:non-canonical-refused");
     }
     (Err(_), Err(_)) => {
       st.class("pk:refused");
